@@ -136,6 +136,10 @@ func (d *Decoder) decodeOBUs(pkt *rtp.Packet) ([][]byte, error) {
 		d.resetFragments()
 	} else {
 		d.firstPacketReceived = true
+
+		// this packet does not continue a previous fragment:
+		// fragments collected so far belong to an OBU that can't be completed anymore.
+		d.resetFragments()
 	}
 
 	// last OBU will continue in next packet
